@@ -53,6 +53,13 @@ def run(ctx):
         roles = Roles(facts)
         items = facts.items
         conv = [b for b in facts.fns() if b.kind == "fn" and items.get(b.key, {}).get("inputs") == ["f64"] and items[b.key].get("output", "").startswith("std::result::Result<serde_json::Value")]
+        if not conv:
+            # no fallible conversion at all: is there an infallible one?  Then a non-finite result has no way to become an error
+            inf = [b for b in facts.fns() if b.kind == "fn" and items.get(b.key, {}).get("inputs") == ["f64"] and items[b.key].get("output", "") == "serde_json::Value"]
+            for b in inf:
+                ctx.fail("K1.non-finite-is-error", "%s|infallible" % b.key.split("::", 1)[1], "the conversion of an arithmetic result into a JSON number (%s) cannot fail: a result that is not finite is turned into some value (serde_json maps it to null) instead of an error" % b.key.split("::", 1)[1], where=b.where(), fn=b.key)
+            if inf:
+                continue
         ctx.need(len(conv) == 1, "result conversion f64 → Result<Value> not identified (%d)" % len(conv))
         tnv = conv[0]
         k1(ctx, facts, tnv, cfg)
@@ -69,6 +76,18 @@ def run(ctx):
         pf = float_style[0]
         # parseFloat ignores leading white space: the prefix scan of the string form runs over the trimmed text
         pf_bodies = [facts.body(k) for k in sorted(facts.reach([pf.key])) if facts.body(k) is not None and not any(k == x.key for x in number_style)]
+        # decimal digits are the ten ASCII digits: a Unicode-category test (char::is_numeric accepts ², ½, ٣ …) makes the
+        # prefix scanner take characters the float parser then rejects — "5²" would be an error instead of 5
+        conv_reach = set()
+        for x_ in [pf] + number_style + [s2n]:
+            conv_reach |= facts.reach([x_.key])
+        for k_ in sorted(conv_reach):
+            xb = facts.body(k_)
+            if xb is None:
+                continue
+            for bi, t in xb.calls():
+                if re.search(r"^std::char::methods::<impl char>::(is_numeric|is_alphanumeric|is_alphabetic)$", callee_path(t) or ""):
+                    ctx.fail("K4.ascii-digits", "%s|%s" % (xb.key.split("::", 1)[1], (callee_path(t) or "").rsplit("::", 1)[1]), "the string→number conversion classifies characters with %s, a Unicode category test: non-ASCII numerals and letters are treated as part of a number" % (callee_path(t) or "").rsplit("::", 1)[1], where=xb.where(bi), fn=xb.key)
         scans = []
         for xb in pf_bodies:
             for bi, t in xb.calls():
